@@ -319,7 +319,7 @@ pub fn run(cfg: &Cfg) -> Report {
     {
         let sets: Vec<MSym> = observe(|| rust_dsymbols::generators::dset_generators::DSets::new(3, 8).map(|s| from_dset(&s)).collect::<Vec<_>>()).unwrap_or_default();
         let big: Vec<&MSym> = sets.iter().filter(|s| s.n >= 6 && s.is_complete_set() && s.ops_are_involutions() && s.far_ops_commute() && s.is_connected()).collect();
-        for k in 0..cfg.tier.pick(15_000, 80_000) {
+        for k in 0..cfg.tier.pick(40_000, 120_000) {
             if big.is_empty() {
                 break;
             }
@@ -329,7 +329,7 @@ pub fn run(cfg: &Cfg) -> Report {
         }
     }
     // random larger 2D symbols (7-12 chambers): structure, abelianisation, and the deeper clauses when small enough
-    symbols.extend(gen::random_larger_2d_symbols(seed, cfg.tier.pick(2_000, 30_000), cfg.tier.pick(12, 20), &[1, 1, 1, 2, 2, 3, 4, 6]));
+    symbols.extend(gen::random_larger_2d_symbols(seed, cfg.tier.pick(6_000, 30_000), cfg.tier.pick(12, 20), &[1, 1, 1, 2, 2, 3, 4, 6]));
     let ctx = par_items(cfg, &symbols, |ctx, k, m| {
         let mut rng = Rng::stream(seed, 0x09_0000 + k as u64);
         judge(ctx, m, k % 2 == 1, depth);
